@@ -47,7 +47,7 @@ class Recorder:
 def run(chk, ctx, rng):
     dadi = ctx['dadi']; driver = ctx['driver']; I = dadi.Integration
     tier = ctx['tier']
-    n = 6 if tier == 'quick' else 36
+    n = 9 if tier == 'quick' else 36
     old = I.use_delj_trick
     try:
         for it in range(n):
